@@ -889,8 +889,40 @@ func runC14PopCase(c *Ctx) {
 			construct := fmt.Sprintf("%s|look-up in PopularActions#%d", FuncName(fn), n)
 			// allowed: inside a function that also compares the names with strings.EqualFold (exact hit first, then the
 			// case-insensitive search), or with a key taken from the map itself
-			if len(findCalls(fn, "strings.EqualFold")) > 0 {
-				c.ok(construct, lk.Pos(), "the function falls back to a comparison with strings.EqualFold")
+			if folds := findCalls(fn, "strings.EqualFold"); len(folds) > 0 {
+				// the case-insensitive comparison covers the whole of the key in front of the ref: an operand that is a slice
+				// of a key needs the two lengths to have been found equal (a longer key - an action in a sub-directory of
+				// the same repository - matches a prefix otherwise)
+				whole := true
+				for _, fc := range folds {
+					for _, a := range fc.Common().Args {
+						sl, isSlice := a.(*ssa.Slice)
+						if !isSlice {
+							continue
+						}
+						if _, fromSpec := sl.X.(*ssa.Parameter); fromSpec {
+							continue // a part of the spec that was asked for
+						}
+						lenEq := false
+						for ifi := range controllingConds(fc.Block()) {
+							if bo, ok := ifi.Cond.(*ssa.BinOp); ok && (bo.Op == token.EQL || bo.Op == token.NEQ) {
+								_, lx := bo.X.(*ssa.Call)
+								_, ly := bo.Y.(*ssa.Call)
+								if lx && ly && strings.HasPrefix(symName(bo.X), "len(") && strings.HasPrefix(symName(bo.Y), "len(") {
+									lenEq = true
+								}
+							}
+						}
+						if !lenEq {
+							whole = false
+						}
+					}
+				}
+				if whole {
+					c.ok(construct, lk.Pos(), "the function falls back to a comparison of the whole name with strings.EqualFold")
+				} else {
+					c.bad(construct, lk.Pos(), "the case-insensitive fallback compares a prefix of the key with the name without having found the lengths equal: `Actions/Cache@v4` also matches the key of actions/cache/restore@v4 and is checked against the wrong interface")
+				}
 			} else {
 				c.bad(construct, lk.Pos(), "the data set is looked up with the spec as written: `uses: Actions/Cache@v4` (owner and repository are case-insensitive) is not found, so none of its inputs and outputs are checked")
 			}
@@ -2177,7 +2209,16 @@ func runC08JSONKeys(c *Ctx) {
 	var asym *ssa.Call
 	eachInstr(fn, func(b *ssa.BasicBlock, _ int, in ssa.Instruction) {
 		call, ok := in.(*ssa.Call)
-		if !ok || !call.Call.IsInvoke() || call.Call.Method.Name() != "Assignable" {
+		if !ok {
+			return
+		}
+		if call.Call.IsInvoke() {
+			if call.Call.Method.Name() != "Assignable" {
+				return
+			}
+		} else if f := staticCallee(&call.Call); f == nil || FuncName(f) != "EqualTypes" {
+			// EqualTypes is assignability in both directions: `any` equals everything, so with three spellings the one
+			// that sorts last decides whether the property stays `any`
 			return
 		}
 		underCollision := false
@@ -2195,7 +2236,7 @@ func runC08JSONKeys(c *Ctx) {
 		}
 	})
 	if asym != nil {
-		c.bad(construct, asym.Pos(), "colliding keys are compared with Assignable, which holds in one direction only: which of `{\"Version\":\"1\",\"version\":3}` and `{\"version\":\"1\",\"Version\":3}` keeps a type depends on the spellings")
+		c.bad(construct, asym.Pos(), "colliding keys are compared with Assignable / EqualTypes, relations that `any` satisfies or that hold in one direction only: which of `{\"Version\":\"1\",\"version\":3}` and `{\"version\":\"1\",\"Version\":3}` keeps a type depends on the spellings")
 	} else {
 		c.ok(construct, fn.Pos(), "no one-directional type relation decides what colliding keys give")
 	}
